@@ -413,7 +413,7 @@ def run(r):
     # and are never listed as project symbols by the real server
     import C05
     stdlib = set(core.tables()["stdlib_modules"])
-    hbad, hstats, _ = C05.explore_handlers(r, random.Random(r.seed * 13 + 14), int(os.environ.get("VERIF_H2_WORKSPACES", 6 if quick else 60)), stdlib)
+    hbad, hstats, _ = C05.explore_handlers(r, random.Random(r.seed * 13 + 14), int(os.environ.get("VERIF_H2_WORKSPACES", 10 if quick else 60)), stdlib)
     hseen = set()
     for b in hbad:
         if not any(b["why"].startswith(x) for x in ("workspace symbols", "document symbols", "code lenses are shown", "the fixtures of the installed")) or b["why"] in hseen:
